@@ -2,7 +2,8 @@
 
 // C26 correspondence harness: feeds a byte stream through a net.Pipe in seeded chunk sizes into
 // the real broker.ReadProxyProtocol, reads the wrapped connection to EOF, and prints one canonical
-// line per op (same format as lean/Driver/C26.lean).
+// line per op (same format as lean/Driver/C26.lean).  `conn <seed> <hex>`: result or `err`; `econn <seed> <hex>`: the same, and
+// on a rejection also the bytes the wrapped connection still delivers (`err rest=<hex>`): how much the parser consumed.
 package main
 
 import (
@@ -40,7 +41,7 @@ func canonIP(s string, v2 bool) string {
 	return hx(ip.To16())
 }
 
-func doOp(seed uint64, data []byte) (out string) {
+func doOp(seed uint64, data []byte, errRest bool) (out string) {
 	client, server := net.Pipe()
 	done := make(chan struct{})
 	go func() {
@@ -71,6 +72,17 @@ func doOp(seed uint64, data []byte) (out string) {
 	_ = server.SetReadDeadline(time.Now().Add(10 * time.Second))
 	wrapped, info, err := broker.ReadProxyProtocol(server)
 	if err != nil {
+		if errRest {
+			// how much did the parser consume before rejecting?  what the wrapped connection still delivers
+			if wrapped == nil {
+				return "err rest=nil-conn"
+			}
+			rest, rerr := io.ReadAll(wrapped)
+			if rerr != nil {
+				return "err rest=unreadable"
+			}
+			return "err rest=" + hx(rest)
+		}
 		return "err"
 	}
 	rest, rerr := io.ReadAll(wrapped)
@@ -106,7 +118,7 @@ func main() {
 		if len(f) == 0 || strings.HasPrefix(f[0], "#") {
 			continue
 		}
-		if f[0] != "conn" || len(f) < 2 || len(f) > 3 {
+		if (f[0] != "conn" && f[0] != "econn") || len(f) < 2 || len(f) > 3 {
 			fmt.Fprintln(w, "bad-op")
 			continue
 		}
@@ -123,7 +135,7 @@ func main() {
 				continue
 			}
 		}
-		fmt.Fprintln(w, doOp(seed, data))
+		fmt.Fprintln(w, doOp(seed, data, f[0] == "econn"))
 		w.Flush()
 	}
 }
